@@ -154,6 +154,44 @@ fn post_drain(&mut self, disconnected: bool, clear_readiness: bool, action: Post
 //@ endslice
 }
 
+//@ region channel_ctor_specs props=C04
+impl<T> Channel<T> {
+    pub closed spec fn rx(&self) -> &mpsc::Receiver<T> { &self.receiver }
+    pub closed spec fn cap(&self) -> usize { self.capacity }
+    /// the eventfd the channel pings itself through when a batch is cut short
+    pub closed spec fn own_fd(&self) -> int { self.ping.raw() }
+}
+/// Rule R23: `ping.clone()` of calloop's `#[derive(Clone)] struct Ping { event: Arc<FlagOnDrop> }` becomes a call of this
+/// stand-in (Verus adds no specification to a derived Clone that is not a Copy, and rejects a second one). ASSUMED: a
+/// derived Clone clones field by field and `Arc::clone` yields the same allocation.
+#[verifier::external_body]
+fn ping_clone(p: &Ping) -> (r: Ping)
+    ensures r == *p,
+{ p.clone() }
+//@ endregion
+//@ item src/sources/channel.rs / fn channel props=C04 ret=r
+//@ rw R23 * <<ping.clone()>> => <<ping_clone(&ping)>>
+//@ rw R24 1 <<make_ping().expect("Failed to create a Ping.")>> => <<crate::ext::expect_or_diverge(make_ping(), "Failed to create a Ping.")>>
+//@ spec
+    ensures
+        // C04: the sender's queue end and the channel's are the two ends of one queue, and the eventfd the sender pings is
+        // the one the channel's PingSource polls (and the one the channel re-arms itself through): a send wakes THIS source
+        queue_of_tx(&r.0.queue()) == queue_of_rx(r.1.rx()),
+        r.0.wake_fd() == r.1.src().raw(), r.1.own_fd() == r.1.src().raw(),
+        // an unbounded channel never takes the rendezvous path
+        r.1.cap() == usize::MAX,
+//@ enditem
+//@ item src/sources/channel.rs / fn sync_channel props=C04 ret=r
+//@ rw R23 * <<ping.clone()>> => <<ping_clone(&ping)>>
+//@ rw R24 1 <<make_ping().expect("Failed to create a Ping.")>> => <<crate::ext::expect_or_diverge(make_ping(), "Failed to create a Ping.")>>
+//@ spec
+    ensures
+        queue_of_stx(&r.0.queue()) == queue_of_rx(r.1.rx()),
+        r.0.wake_fd() == r.1.src().raw(), r.1.own_fd() == r.1.src().raw(),
+        // the capacity the drain loop uses to size its batch is the queue's bound
+        r.1.cap() == bound,
+//@ enditem
+
 //@ region channel_src_spec props=C16,C07,C15
 impl<T> Channel<T> {
     /// the ping source the channel is registered through (ghost)
